@@ -22,7 +22,26 @@ def module_consts(modname):
     return {"_np": None}
 
 
+def nested_source(modname, qualname):
+    """source text of a function defined inside another one: qualname `outer::inner` (re-read from the real file on every run)"""
+    import ast as _ast
+
+    outer, inner = qualname.split("::")
+    f = get_function(modname, outer)
+    f = getattr(f, "py_func", f)
+    f = getattr(f, "__wrapped__", f)
+    fd = _ast.parse(textwrap.dedent(inspect.getsource(f))).body[0]
+    for st in fd.body:
+        if isinstance(st, _ast.FunctionDef) and st.name == inner:
+            return _ast.unparse(st) + "\n"
+    raise LookupError("no nested function %s in %s" % (inner, outer))
+
+
 def get_function(modname, qualname):
+    if "::" in qualname:
+        scope = {"_np": np}
+        exec(compile(nested_source(modname, qualname), "<nested %s>" % qualname, "exec"), scope)
+        return scope[qualname.split("::")[1]]
     obj = importlib.import_module(modname)
     for part in qualname.split("."):
         obj = getattr(obj, part)
@@ -33,7 +52,9 @@ def generate(modname, qualname, contracts_mod, source=None):
     key = (modname, qualname, contracts_mod, source)
     if key not in _CACHE:
         contracts = importlib.import_module(contracts_mod).CONTRACTS
-        name = qualname.split(".")[-1]
+        name = qualname.split("::")[-1].split(".")[-1]
+        if "::" in qualname and source is None:
+            source = nested_source(modname, qualname)
         eng = V.Engine(get_function(modname, qualname), dict(contracts[name], name=name), contracts, module_consts(modname), source=source)
         _CACHE[key] = eng.generate()
     return _CACHE[key]
@@ -71,7 +92,7 @@ def small_inputs(contract, limit=400):
 def native_search(modname, qualname, contracts_mod):
     """Bounded search for a concrete input on which the real function violates its contract."""
     contracts = importlib.import_module(contracts_mod).CONTRACTS
-    name = qualname.split(".")[-1]
+    name = qualname.split("::")[-1].split(".")[-1]
     c = contracts[name]
     f = get_function(modname, qualname)
     for args in small_inputs(c, 3000):
@@ -86,7 +107,7 @@ def native_search(modname, qualname, contracts_mod):
 
 def replay_contract(modname, qualname, contracts_mod, args):
     contracts = importlib.import_module(contracts_mod).CONTRACTS
-    name = qualname.split(".")[-1]
+    name = qualname.split("::")[-1].split(".")[-1]
     a = {k: (np.array(v) if isinstance(v, list) else v) for k, v in args.items()}
     ok, msg = VN.check_call(get_function(modname, qualname), contracts[name], a)
     return {"violates": ok is False, "message": msg}
@@ -121,7 +142,7 @@ def ob_witness(modname, qualname, contracts_mod, witnesses):
     """pre-sat + engine-vs-CPython differential: the concrete witness inputs satisfy `requires`, and the real function (run by CPython)
     satisfies `ensures` / `raises` on them."""
     contracts = importlib.import_module(contracts_mod).CONTRACTS
-    name = qualname.split(".")[-1]
+    name = qualname.split("::")[-1].split(".")[-1]
     f = get_function(modname, qualname)
     n = 0
     for w in witnesses:
@@ -148,6 +169,11 @@ def _outside_subset(qualname, msg):
 def add_function(run, modname, qualname, contracts_mod, witnesses):
     f = get_function(modname, qualname)
     run.under_contract(f, qualname="%s.%s" % (modname, qualname), dropped="@numba.njit decorator and its locals= type pins; integer widths (mathematical integers)")
+    if "::" in qualname:
+        import hashlib
+
+        run.functions["%s.%s" % (modname, qualname)]["sha256_16"] = hashlib.sha256(nested_source(modname, qualname).encode()).hexdigest()[:16]
+        run.functions["%s.%s" % (modname, qualname)]["dropped"] = "nested function, extracted by name from the enclosing function's AST; mathematical integers"
     try:
         obs = count(modname, qualname, contracts_mod)
     except Exception as e:  # noqa: the function left the verified subset (or the generator failed): undecided, never a crash of the check
@@ -244,11 +270,31 @@ def block_obligations(blocks_mod, name):
         b = importlib.import_module(blocks_mod).BLOCKS[name]
         f = get_function(*b["function"])
         extract = VB.extract_method_loop_body if b.get("method") else VB.extract_loop_body
-        src, target, line = extract(f, b["loop"][0], b["loop"][1], name, b["params"], b["returns"])
-        eng = V.Engine(f, dict(b["contract"], name=name), {}, {"_np": None}, source=src)
+        kw = {k: b[k] for k in ("inner", "records") if k in b}
+        src, target, line = extract(f, b["loop"][0], b["loop"][1], name, b["params"], b["returns"], **kw)
+        eng = V.Engine(f, dict(b["contract"], name=name), b.get("callees", {}), {"_np": None}, source=src)
         obs = eng.generate()
         _BLOCK_CACHE[key] = (obs, sorted(set(eng.opaque_log)), src)
     return _BLOCK_CACHE[key]
+
+
+def native_block(blocks_mod, name, helpers=()):
+    """The extracted block as a CPython function (same text the V-engine reads), plus the nested helper functions of the parent it calls (by name):
+    used to run the block contract natively along real executions (requires hold where the real code reaches the block; ensures are not over-strict)."""
+    import ast as _ast
+
+    obs, opaque, src = block_obligations(blocks_mod, name)
+    b = importlib.import_module(blocks_mod).BLOCKS[name]
+    f = get_function(*b["function"])
+    f = getattr(f, "py_func", f)
+    f = getattr(f, "__wrapped__", f)
+    fd = _ast.parse(textwrap.dedent(inspect.getsource(f))).body[0]
+    scope = {"_np": np}
+    for st in fd.body:
+        if isinstance(st, _ast.FunctionDef) and st.name in helpers:
+            exec(compile(_ast.Module(body=[st], type_ignores=[]), "<nested %s>" % st.name, "exec"), scope)
+    exec(compile(src, "<block %s>" % name, "exec"), scope)
+    return scope[name], b["contract"], b["params"]
 
 
 def ob_block(blocks_mod, name, index):
@@ -274,13 +320,17 @@ def ob_block(blocks_mod, name, index):
     return undecided("solver unknown on %s" % ob.name, backend=backend)
 
 
+def _block_not_extractable(name, msg):
+    return undecided("block %s is outside the V-engine subset / not found: %s" % (name, msg))
+
+
 def add_block(run, blocks_mod, name):
     b = importlib.import_module(blocks_mod).BLOCKS[name]
     f = get_function(*b["function"])
     try:
         obs, opaque, src = block_obligations(blocks_mod, name)
     except (V.Unsupported, LookupError) as ex:
-        run.add("%s::extractable" % name, "post", lambda m=str(ex), n=name: undecided("block %s is outside the V-engine subset / not found: %s" % (n, m)))
+        run.add("%s::extractable" % name, "post", _block_not_extractable, name, str(ex))
         return
     run.under_contract(f, qualname="%s.%s [block %s]" % (b["function"][0], b["function"][1], name),
                        dropped="everything but the body of the loop `for ... in %s` #%d (block contract per iteration); expressions outside the V-engine subset evaluate to "
